@@ -4,7 +4,7 @@ From Coq Require Import List ZArith String Ascii Bool Arith.
 From SMD Require Import Base.Sexp Model.Value Model.Order Model.PathElem Model.PathSet
   Model.Schema Model.Walk Model.Validate Model.FieldSet Model.Remove Model.Merge Model.Compare
   Model.Matcher Model.Reconcile Model.Updater Model.Codec
-  Spec.PathsAsSets Spec.Resolve Spec.RefValid Spec.RefDiff Spec.Agree Driver.Common Driver.Typed.
+  Spec.PathsAsSets Spec.Resolve Spec.RefValid Spec.RefDiff Spec.Agree Spec.Patterns Driver.Common Driver.Typed.
 Import ListNotations.
 Open Scope string_scope.
 Open Scope bool_scope.
@@ -102,6 +102,22 @@ Definition make_config (schemas : list (string * schema)) (hc : hconf) (failAt :
      end)
     returnInput
     vorder.
+
+(* is p ignored at version ver under the run's ignore configuration? *)
+Definition ignored_at_h (hc : hconf) (ver : string) (p : path) : bool :=
+  match hc_ignore hc with
+  | HIgnNone => false
+  | HIgnSets _ sets =>
+      match assoc_get ver sets with
+      | Some ex => existsb (fun q => is_prefix q p) (ps_elems ex)
+      | None => false
+      end
+  | HIgnPatterns pats =>
+      match assoc_get ver pats with
+      | Some ps => negb (include_keeps ps p)
+      | None => false
+      end
+  end.
 
 (* ---------- states and outcomes ---------- *)
 
@@ -223,7 +239,7 @@ Definition out_managed (o : hout) : option (list (string * (string * bool * list
 
 Definition is_ok (o : hout) : bool := match o with HOk _ _ => true | _ => false end.
 
-Definition apply_oracles (prop : string) (s : schema) (tr : typeref) (live : tv)
+Definition apply_oracles (vers : list string) (ign : string -> path -> bool) (prop : string) (s : schema) (tr : typeref) (live : tv)
   (mobs : list (string * (string * bool * list path))) (mgr ver : string) (cfg : value)
   (noforce force reapply rion : hout) : list string :=
   let lv := snd live in
@@ -379,6 +395,39 @@ Definition apply_oracles (prop : string) (s : schema) (tr : typeref) (live : tv)
              "prop C07 no object is returned exactly when the result equals the live object"
      | _, _ => []
      end)
+  else if String.eqb prop "C19" then
+    match out_obj live chosen, out_managed chosen with
+    | Some res, Some mafter =>
+        let d := ref_diff s tr lv res in
+        let touched := nonroot (rd_modified d ++ rd_added d ++ rd_removed d)%list in
+        chk (forallb (fun o : string * (string * bool * list path) =>
+                        forallb (fun p => negb (ign (fst (fst (snd o))) p)) (snd (snd o))) mafter)
+            "prop C19 no record contains an ignored field or anything beneath it" @@
+        chk (forallb (fun o : string * (string * bool * list path) =>
+                        String.eqb (fst o) mgr ||
+                        negb (forallb (ign (fst (fst (snd o)))) touched) ||
+                        match assoc_get (fst o) mafter with
+                        | Some (v2, a2, p2) => paths_eqb (snd (snd o)) p2
+                        | None => false
+                        end) mobs)
+            "prop C19 changes confined to ignored fields take ownership away from nobody" @@
+        chk (match noforce with
+             | HConflict cs =>
+                 forallb (fun mp : string * path =>
+                            match assoc_get (fst mp) mobs with
+                            | Some (v, _, _) => negb (ign v (snd mp))
+                            | None => true
+                            end) cs
+             | _ => true
+             end)
+            "prop C19 ignored fields never cause conflicts" @@
+        (* only for ignore configurations that treat the configuration's fields alike in
+           every version of the run: a field ignored at one version and owned at another
+           is pruned when the manager switches version, by design of the per-version sets *)
+        (if isplain && forallb (fun pn : path * bool => forallb (fun v => Bool.eqb (ign v (fst pn)) (ign ver (fst pn))) vers) (nodes s tr cfg)
+         then chk (agrees s tr cfg res) "prop C19 values of ignored fields are merged like any other" else [])
+    | _, _ => []
+    end
   else [].
 
 Definition run_hist_apply (prop : string) (schemas : list (string * schema)) (hc : hconf)
@@ -402,7 +451,7 @@ Definition run_hist_apply (prop : string) (schemas : list (string * schema)) (hc
                 chk (ures_matches (apply_op c live' (ver, cfg) ver (managed_of m) mgr false) reapply) "corr re-apply"
             | _, _ => []
             end in
-          let prop_msgs := apply_oracles prop s tr live mobs mgr ver cfg noforce force reapply rion in
+          let prop_msgs := apply_oracles (map hv_name (hc_versions hc)) (ignored_at_h hc) prop s tr live mobs mgr ver cfg noforce force reapply rion in
           let nt :=
             (* >= 2 managers before the step and the apply drops or changes something *)
             if Nat.leb 2 (List.length mobs) then 1 else 0 in
@@ -454,6 +503,20 @@ Definition run_hist_update (prop : string) (schemas : list (string * schema)) (h
                   "prop C05 no manager with an empty record remains"
             else if String.eqb prop "C06" then
               inv_msgs s tr (match ro with Some t => snd t | None => lv end) mafter
+            else if String.eqb prop "C19" then
+              let d := ref_diff s tr lv obj in
+              let touched := nonroot (rd_modified d ++ rd_added d ++ rd_removed d)%list in
+              chk (forallb (fun o : string * (string * bool * list path) =>
+                              forallb (fun p => negb (ignored_at_h hc (fst (fst (snd o))) p)) (snd (snd o))) mafter)
+                  "prop C19 no record contains an ignored field or anything beneath it" @@
+              chk (forallb (fun o : string * (string * bool * list path) =>
+                              String.eqb (fst o) mgr ||
+                              negb (forallb (ignored_at_h hc (fst (fst (snd o)))) touched) ||
+                              match assoc_get (fst o) mafter with
+                              | Some (v2, a2, p2) => paths_eqb (snd (snd o)) p2
+                              | None => false
+                              end) mobs)
+                  "prop C19 changes confined to ignored fields take ownership away from nobody"
             else []
         | HErr => if String.eqb prop "C06" then ["prop C06 an operation on valid inputs failed without a conflict"] else []
         | HPanic => if String.eqb prop "C06" then ["prop C06 an operation on valid inputs panicked"] else []
@@ -510,4 +573,46 @@ Definition run_hist_extract (prop : string) (schemas : list (string * schema)) (
         else [] in
       mkOut (corr @@ prop_msgs) 2 (if plain (snd ext) then 1 else 0) ["extract"]
   | _, _, _, _, _ => out_bad "hist.extract decode"
+  end.
+
+(* ---------- C19 stand-alone filters ---------- *)
+
+Definition run_c19_include (pats set res : sexp) : outcome :=
+  match pats, dec_paths set with
+  | SList (SAtom "pats" :: ps), Some set =>
+      match map_opt dec_pattern ps with
+      | None => out_bad "c19 patterns"
+      | Some ps =>
+          match res with
+          | SAtom "panic" => mkOut ["prop C19 include filter panicked"] 1 1 []
+          | _ =>
+              match dec_paths res with
+              | None => out_bad "c19 include result"
+              | Some res =>
+                  let m := include_matcher (map prefix_matcher ps) in
+                  let model := ps_elems (ps_filter_include (ps_of_paths set) m) in
+                  mkOut (chk (paths_eqb model res) "corr include filter" @@
+                         chk (psame res (filter (include_keeps ps) set))
+                             "prop C19 an include filter keeps exactly the paths compatible with one of its patterns")
+                        1 (if Nat.ltb 1 (List.length ps) then 1 else 0) []
+              end
+          end
+      end
+  | _, _ => out_bad "c19.include"
+  end.
+
+Definition run_c19_exclude (ex set res : sexp) : outcome :=
+  match dec_paths ex, dec_paths set, dec_paths res with
+  | Some ex, Some set, Some res =>
+      let model := ps_elems (ps_rdiff (ps_of_paths set) (ps_of_paths ex)) in
+      mkOut (chk (paths_eqb model res) "corr exclude filter" @@
+             chk (psame res (p_rdiff set ex)) "prop C19 an exclusion filter drops exactly the paths at or beneath an excluded path")
+            1 (match ex with [] => 0 | _ => 1 end) []
+  | _, _, _ => out_bad "c19.exclude"
+  end.
+
+Definition run_c19_same (a b obs : sexp) : outcome :=
+  match dec_bool obs with
+  | Some ok => mkOut (chk ok "prop C19 exclusion set and equivalent filter give identical results") 1 1 []
+  | None => out_bad "c19.same"
   end.
